@@ -129,6 +129,9 @@ def case_program(col, p):
                     if "'epochs' must be a non-empty list" in str(e) and any(k in site for k in ('consecutive_splits', 'split_then_remove', 'split_then_reorder')):
                         # one failure class whatever the dimension / other features: a deme that exists for zero time (two structural changes in a row)
                         site = 'zero_length_deme'
+                    elif 'invalid pulse' in str(e) and any(a[0] == 'pulse' and b[0] in ('split', 'admix_new') for a, b in zip(prog, prog[1:])):
+                        # one failure class: a pulse immediately followed by a split / admixture (the exporter ends the pulsed deme at the pulse time)
+                        site = 'pulse_then_split'
                     elif 'is not in list' in str(e) and any(op[0] == 'admix_new' and any(0 < f < 1 for f in list(op[1]) + [1 - sum(op[1])]) for op in prog):
                         # one failure class: a model with a genuine admixture event (new population drawn from two or more parents)
                         site = 'admixture_event_not_reimportable'
@@ -143,6 +146,16 @@ def case_program(col, p):
                     g2 = dadi.Demes.output(Nref=Nref, generation_time=gt)
                     return relerr(sfs(g2, list(dadi.Demes.cache[-1].deme_ids), ns, pts), nat2)
                 okx, errsx = agree_or_ladder(err, lambda: with_tf(1e-4, again))
+                if not okx and err <= 2e-2 and any(op[0] == 'remove' for op in prog):
+                    # same fallback as for the import below: a difference that is a grid error shrinks under grid refinement
+                    xx2 = dadi.Numerics.default_grid(2 * pts)
+                    nat2 = np.asarray(PR.run(prog + [['sample', ns]], xx2).data)
+                    PR.run(prog, xx2)
+                    g2 = dadi.Demes.output(Nref=Nref, generation_time=gt)
+                    err_fine = relerr(sfs(g2, list(dadi.Demes.cache[-1].deme_ids), ns, 2 * pts), nat2)
+                    col.tick(transitions=3, agreement_only_on_grid_ladder=1)
+                    errsx = errsx + [err_fine]
+                    okx = err_fine <= 0.6 * err
                 if not okx:
                     col.violation('C16:export:%s' % export_site(prog), dict(info, Nref=Nref, generation_time=gt), {'relerr_by_step': errsx})
                 else:
@@ -162,7 +175,11 @@ def case_program(col, p):
             try:
                 base = sfs(g, live, ns, pts, sample_times=times)
             except Exception as e:
-                col.violation('C16:Demes.SFS:%s' % import_site(prog, st), dict(info, style=style), '%s: %s' % (type(e).__name__, str(e)[:300]))
+                site = import_site(prog, st)
+                if 'neworder argument misspecified' in str(e) and any(a[0] == 'admix_new' and b[0] == 'remove' for a, b in zip(prog, prog[1:])):
+                    # one failure class: an admixed deme one of whose parents ends at the moment of admixture while the other goes on
+                    site = 'parent_ends_at_admixture'
+                col.violation('C16:Demes.SFS:%s' % site, dict(info, style=style), '%s: %s' % (type(e).__name__, str(e)[:300]))
                 continue
             col.tick(transitions=1)
             n += 1
@@ -170,10 +187,11 @@ def case_program(col, p):
             ok, errs = agree_or_ladder(err, lambda: with_tf(1e-4, lambda: relerr(sfs(g, live, ns, pts, sample_times=times),
                                                                                   np.asarray(PR.run(prog + [['sample', ns]], xx).data))))
             col.tick(transitions=1 if len(errs) == 1 else 3)
-            if not ok and has_frozen and err <= 2e-2:
-                # an ancient sample: the graph is sliced at the sample time, the native program keeps integrating the other populations next to the
-                # frozen one; the two are different discretisations of the same model (the frozen marginal's boundary value keeps collecting new
-                # mutations of the evolving populations), so the difference is a GRID error: it must shrink when the grid is refined
+            if not ok and err <= 2e-2 and (has_frozen or any(op[0] == 'remove' for op in prog)):
+                # only where the two computations ARE different discretisations of the same model (an ancient sample: the graph is sliced at the
+                # sample time while the native program keeps integrating the other populations next to the frozen one; a population removed
+                # before or after a step): there the difference is a GRID error and must shrink when the grid is refined.  Anywhere else a
+                # persistent difference is a violation (a wrong migration index shrinks under refinement too).
                 xx2 = dadi.Numerics.default_grid(2 * pts)
                 err_fine = relerr(sfs(g, live, ns, 2 * pts, sample_times=times), np.asarray(PR.run(prog + [['sample', ns]], xx2).data))
                 col.tick(transitions=2, agreement_only_on_grid_ladder=1)
@@ -507,6 +525,13 @@ def family_45():
     base = [['init', 1.0, 0.0, 0.5], ['int', 0.05, [1.5], [], [0.0], [0.5], [0]], ['split', 0],
             ['int', 0.04, [1.0, 0.6], [[[0, 1], 0.5], [[1, 0], 0.25]], [0.0] * 2, [0.5] * 2, [0, 0]]]
     out = []
+    # every migration rate of the 4- and 5-population integrators distinct and non-zero (always run, also in the quick tier)
+    b4f = base + [['split', 0], ['int', 0.03, [1.0, 0.6, 1.2], [], [0.0] * 3, [0.5] * 3, [0, 0, 0]], ['split', 1]]
+    migf4 = [[[i, j], 0.2 + 0.3 * i + 0.07 * j] for i in range(4) for j in range(4) if i != j]
+    out.append(b4f + [['int', 0.02, [1.0, 0.6, 1.2, 0.8], migf4, [0.0] * 4, [0.5] * 4, [0] * 4]])
+    migf5 = [[[i, j], 0.2 + 0.3 * i + 0.07 * j] for i in range(5) for j in range(5) if i != j]
+    out.append(b4f + [['int', 0.02, [1.0, 0.6, 1.2, 0.8], [], [0.0] * 4, [0.5] * 4, [0] * 4], ['split', 2],
+                      ['int', 0.01, [1.0, 0.6, 1.2, 0.8, 0.9], migf5, [0.0] * 5, [0.5] * 5, [0] * 5]])
     for p3 in (0, 1):
         b3 = base + [['split', p3], ['int', 0.03, [1.0, 0.6, ['exp', 0.5, 1.5]], [[[0, 2], 0.5]], [0.0] * 3, [0.5] * 3, [0, 0, 0]]]
         for p4 in (0, 1, 2):
@@ -541,7 +566,7 @@ def family_45():
 
 def run(ctx):
     cases = []
-    L = 3 if ctx.quick else 4
+    L = 3 if ctx.quick else 5
     progs = PR.all_programs([['init', 1.0, 0.0, 0.5]], L, maxd=3, selection=False)
     # drop programs that end with no integration at all after the last structural change? keep all; skip only trivial ones
     progs = [pr for pr in progs if len(pr) > 1]
@@ -551,8 +576,8 @@ def run(ctx):
         cases.append({'kind': 'program', 'pts': 10, 'programs': progs[lo:lo + per]})
     f45 = family_45()
     if ctx.quick:
-        f45 = [pr for i, pr in enumerate(f45) if i % 3 == ctx.seed % 3]
-        ctx.cap_hit('quick: one third of the 4-5 population family (rotated with the seed) and programs up to length 3; thorough: all, length 4')
+        f45 = [pr for i, pr in enumerate(f45) if i < 2 or i % 3 == ctx.seed % 3]
+        ctx.cap_hit('quick: one third of the 4-5 population family (rotated with the seed) and programs up to length 3; thorough: all, length 5')
     for lo in range(0, len(f45), 3):
         cases.append({'kind': 'program', 'pts': 8, 'programs': f45[lo:lo + 3]})
     for fn in ('constant', 'exponential', 'linear'):
